@@ -47,5 +47,12 @@ RecOK == ri > 0 =>
                  /\ Is(r.locs, IF w = 0 THEN l0 ELSE PadLoopN(ReflectOdd(l0, w), w, r.n), "get_padded_extrema.locs(float)")
                  /\ Is(r.mags_ok, 1, "get_padded_extrema.mags(float)")
                  /\ Is(r.grid, "integer", "interp_envelope.grid(float)")
+      [] r.kind = "isimf" ->    \* is_imf(column)[0]: the extrema / zero-crossing count criterion
+            Is(r.out, IF IsImfCountCheck(r.sig) THEN 1 ELSE 0, "is_imf.extrema_zero_crossing_count")
+      [] r.kind = "zc" -> Is(r.out, ZeroCrossings(r.sig), "zero_crossing_count")
+      [] r.kind = "epochs" ->   \* find_extrema_locked_epochs(sig, winsize, lock_to) as a list of [start, stop)
+            LET want == Epochs(r.sig, r.winsize, r.mode)
+                ks == SortedSeq(DOMAIN want)
+            IN  Is(r.out, [i \in 1..Len(ks) |-> want[ks[i]]], "find_extrema_locked_epochs.windows")
       [] OTHER -> Bad("unknown record kind")
 =============================================================================
